@@ -910,19 +910,21 @@ def install(world, summarise_c4=True, xsd=None):
     import time as _real_time
     fdt = clock.FakeDatetimeModule(world)
     ftime = clock.FakeTimeModule(world)
+    # (a second world installed on top of the first - C13 explores two on one path - finds the first world's stand-ins there)
+    kind = lambda x: getattr(x, "_verif_stand_in", None)
     for m in (C, Hi, HL, XP, CP, HA, TR, G, IG, U):
         d = m.__dict__.get("datetime")
-        if d is _real_dt:
+        if d is _real_dt or kind(d) == "datetime-module":
             ins.set(m, "datetime", fdt)
-        elif d is _real_dt.datetime:
+        elif d is _real_dt.datetime or kind(d) == "datetime-class":
             ins.set(m, "datetime", fdt.datetime)
         if m.__dict__.get("timedelta") is _real_dt.timedelta:
             ins.set(m, "timedelta", fdt.timedelta)
         if m.__dict__.get("timezone") is _real_dt.timezone:
             ins.set(m, "timezone", fdt.timezone)
-        if m.__dict__.get("time") is _real_time:
+        if m.__dict__.get("time") is _real_time or kind(m.__dict__.get("time")) == "time-module":
             ins.set(m, "time", ftime)
-        if getattr(m.__dict__.get("tz"), "__name__", "") == "dateutil.tz":
+        if getattr(m.__dict__.get("tz"), "__name__", "") == "dateutil.tz" or kind(m.__dict__.get("tz")) == "tz-module":
             ins.set(m, "tz", clock.FakeTzModule(world))
     ins.set(XP, "dateutil", clock.FakeDateutil(world))
 
